@@ -68,6 +68,8 @@ def _matches(m: dict, ctx: Any, case: dict, v: dict) -> bool:
         return False
     if "traits_all" in m and not set(m["traits_all"]) <= set(case.get("traits") or []):
         return False
+    if "result_undefined" in m and bool(v.get("result_undefined")) != bool(m["result_undefined"]):
+        return False
     if m.get("classical_negation"):
         from . import refast
 
